@@ -6,9 +6,11 @@ PARTIAL claim, three legs, all run on every invocation:
      checks (go build -gcflags=-d=ssa/check_bce/debug=1) and the nil sources of the four packages, keyed by
      (file, function, expression); every entry inside a MODELLED function must be pinned in
      corpus/C19_inventory.json with the lemma (or contract) that covers it;
-  3. exploration of the REAL API (harness/cmd/c19): every APIServer method that does not need the p2p stack and the
-     exported WalletManager methods, under recover(), valid / boundary / malformed arguments, in every wallet
-     state (none, unselected, selected, pending, after restart, importing, removing, removed, starting), deterministic
+  3. exploration of the REAL API (harness/cmd/c19): every APIServer request handler (the node carries mass-core's real
+     SyncManager in vault mode, never started: no socket, no peers) and the exported WalletManager methods, under
+     recover(), valid / boundary / malformed arguments plus a structured mostly-valid stream for the transaction,
+     history, node-query and block methods (gen2.go), in every wallet state (none, unselected, selected, pending,
+     after restart, importing, removing, removed, starting, lagging behind a reorganisation of the node), deterministic
      schedules racing requests with the background removal, blocks / unconfirmed transactions with unsupported or
      malformed scripts followed by a liveness probe; plus correspondence of the extracted model with the
      implementation's answers on the same requests and the same store answers."""
@@ -26,7 +28,7 @@ TRUSTED = [
     "translator translate/bce_inventory.go: go build -gcflags=-d=ssa/check_bce/debug=1 (the Go compiler's own prove pass decides which bounds checks are unproven) + go/ast for the enclosing function, the expression text and the nil sources; the nil-check debug flag (-d=nil) is NOT used (it cannot separate proven from fault-based checks)",
     "pinned inventory corpus/C19_inventory.json (dispositions written by translate/pin_c19_inventory.py and reviewed by hand): 'contract' / 'assumption' / 'constructor' dispositions are trusted statements about callees and data (non-nil results when err == nil, no nil elements in decoded slices, fields assigned once by the constructors)",
     "extraction: ExtrOcamlBasic only; Z/N/positive/nat stay inductive; ocaml/common/conv.ml + ocaml/C19/driver.ml (line parser, record construction, printing)",
-    "Go harness harness/cmd/c19 (world builder on harness/internal/sim: real WalletManager on LevelDB in /dev/shm, real api.APIServer built with api.NewAPIServer, simulated node; request generator by reflection over api/proto; DB gate wrapping BeginTx/BeginReadTx/Rollback for the held states and schedules; recover()/deadline wrappers; stack-to-key mapping); hooks (build tag verif): masswallet/hooks_verif.go, masswallet/server_verif.go",
+    "Go harness harness/cmd/c19 (world builder on harness/internal/sim: real WalletManager on LevelDB in /dev/shm, real api.APIServer built with api.NewAPIServer, simulated node with mass-core's netsync.SyncManager in vault mode (sim/sync.go), the Blockchain object re-opened after the history was built so that node-side queries see it; mass-core package variables lowered: CoinbaseMaturity, MinFrozenPeriod, StakingTxRewardStart, and MASSIP0002WarmUpHeight in every other instance; request generator by reflection over api/proto plus the structured generator gen2.go (addresses / binding targets / heights / payloads of the state, BLS-signed pool-coinbase payloads, transactions signed through SignRawTransaction); DB gate wrapping BeginTx/BeginReadTx/Rollback for the held states and schedules; recover()/deadline wrappers; stack-to-key mapping); hooks (build tag verif): masswallet/hooks_verif.go, masswallet/server_verif.go",
     "wf_store of the model (ExistsTx answers only for credits of existing, script-readable outputs; a hash names one transaction; ExistsUtxo answers only for existing outputs) is justified by C01/C16, not re-proved here; on every run the harness reads the real store through the same functions and the model is evaluated on those answers",
     "environment, not verified: mass-core (chain DB, script engine, address codecs, txpool), goleveldb, grpc/protobuf (a handler panic kills the process: grpc-go does not recover; the wallet's own Recover() logs at FATAL and logrus exits)",
 ]
@@ -42,6 +44,12 @@ SITE_KEY = {  # model site -> key the exploration computes for a real panic ther
     "PUnspentsCurNil": "panic:masswallet/txmgr/utxostore.go:UtxoStore.ScriptAddressUnspents",
     "PSelectSlice": "panic:masswallet/tx.go:selectRelatedTx", "PTaskChanNil": "panic:masswallet/task.go:WalletTaskChan.IsBusy",
     "PImportRecNil": "panic:masswallet/ntfnshandler.go:NtfnsHandler.asyncImport",
+    # the second group (tx_service.go / block_service.go / txmgr history)
+    "PBindHistIndex": "panic:masswallet/txmgr/utxostore.go:UtxoStore.GetBindingHistoryDetail",
+    "PBindHistTargetNil": "panic:api/tx_service.go:APIServer.GetBindingHistory", "PBindHistPrevIndex": "panic:api/tx_service.go:APIServer.GetBindingHistory",
+    "PTargetIdx": "panic:api/tx_service.go:APIServer.CheckTargetBinding", "PTxTypeIndex": "panic:api/block_service.go:APIServer.getTxType",
+    "PCurEvictedNil": "panic:masswallet/keystore/manager.go:KeystoreManager.GetManagedAddressByScriptHashInCurrent",
+    "PVinIndex": "panic:api/tx_service.go:APIServer.createVinList", "PRewardTxOut": "panic:api/block_service.go:APIServer.GetBlockStakingReward",
 }
 
 
@@ -109,7 +117,7 @@ def inventory(c):
             drift_funcs.append("%s:%s" % (e["file"], e["func"]))
     gone = [k for k in pinned if k not in seen]
     # every disposition must name things that exist
-    proofs_src = open(os.path.join(V.COQ, "Api", "Proofs.v")).read()
+    proofs_src = "\n".join(open(os.path.join(V.COQ, "Api", f)).read() for f in sorted(os.listdir(os.path.join(V.COQ, "Api"))) if f.startswith("Proofs") and f.endswith(".v"))
     valid_src = open(os.path.join(V.COQ, "Api", "Validate.v")).read()
     lemmas = set(re.findall(r"^\s*(?:Lemma|Theorem)\s+([A-Za-z0-9_']+)", proofs_src, re.M))
     sites = set(re.findall(r"^\|\s*(P[A-Za-z0-9]+)", valid_src, re.M))
@@ -136,7 +144,9 @@ def inventory(c):
 
 def run_harness(c, exe, tier, extra_env=None):
     impl = os.path.join(c.workdir, "impl-%d.txt" % len(os.listdir(c.workdir)))
-    rc, o, e = V.sh([exe, "-tier", tier, "-out", impl, "-j", str(V.NCPU)], timeout=3300, env_extra=extra_env)
+    # the machine is shared: at most 8 worker processes (VERIF_JOBS overrides)
+    jobs = min(V.NCPU, int(os.environ.get("VERIF_JOBS", "8")))
+    rc, o, e = V.sh([exe, "-tier", tier, "-out", impl, "-j", str(jobs)], timeout=3300, env_extra=extra_env)
     if rc != 0:
         return None, (o + e)[-1500:]
     return impl, ""
@@ -359,14 +369,16 @@ def main(tier, replay=None):
         "request_fields_without_a_pool": sorted(stat["unknown_fields"]),
         "samples": samples,
         "modelled_functions": json.load(open(os.path.join(V.ROOT, "corpus", "C19_inventory.json")))["modelled_functions"],
-        "not_explored": "GetClientStatus (needs the p2p stack), Start/Stop/RunGateway, the gRPC and HTTP plumbing; SendRawTransaction is explored up to the verdict of "
-                        "mass-core's ProcessTx (the generated transactions are unsigned and are all rejected there), "
-                        "proccessReceivedTx's two p2p look-ups (unconfirmed transactions are delivered through the real filterTx by the verif hook)",
+        "not_explored": "Start/Stop/RunGateway, the gRPC and HTTP plumbing; GetClientStatus and proccessReceivedTx's best-peer look-up are served by a "
+                        "SyncManager that was never started (no peers, nothing listening): peer lists with entries are not explored. SendRawTransaction: "
+                        "transactions built and signed through the API itself are accepted by mass-core's pool and reach the follower through "
+                        "OnTransactionReceived; transactions the pool would relay to peers go to a channel nobody reads (capacity 10000)",
     })
     c.assumptions = [
         "requests reach the handlers as protobuf decoding produces them: no nil element inside a repeated message field, uint32/uint64 fields in range",
         "blocks and unconfirmed transactions are those a consensus-following node delivers; events beyond that (the same coin spent twice in a block, negative or overflowing values, binding input and binding output together) are run and shown but a refused block there is not a violation",
-        "one wallet database per process (driver-global write batch); CoinbaseMaturity 4, MinFrozenPeriod 2, scrypt N=16 (package variables lowered by the harness)",
+        "one wallet database per process (driver-global write batch); CoinbaseMaturity 4, MinFrozenPeriod 2, StakingTxRewardStart 2, scrypt N=16 (package variables lowered by the harness)",
+        "chain consistency (model: wf_env): a transaction the node serves (block, mempool, chain look-up by hash) was validated by it, so its inputs refer to existing outputs; a coinbase pays the staking rewards its payload announces. What the wallet RECORDED about the chain may be stale (state lagging-reorg): no assumption there",
         "a stall is a request without an answer within 6 s (120 s for the index-hint probe)",
     ]
     return c.finish(TRUSTED, no_input_break=brk)
